@@ -190,11 +190,19 @@ pub fn c01(tier: &str) -> Vec<Family> {
     fams.push(g);
     fams.push(Family::new("far_future", TAGS_TIME, far_future_scenarios(&spec)));
     // Start times before the epoch (-7 s) and crossing it (-1 s + 999_999_998 ns).
-    for (name, secs) in [("driver_sequences@-1s", -1i64), ("driver_sequences@-7s", -7)] {
+    for (name, secs) in [
+        ("driver_sequences@-1s", -1i64),
+        ("driver_sequences@-7s", -7),
+        // Start times whose seconds cross 2^31, 2^32 and 2^33 during the scenario, and a very large one.
+        ("driver_sequences@2^31", (1i64 << 31) - 1),
+        ("driver_sequences@2^32", (1i64 << 32) - 1),
+        ("driver_sequences@2^33", (1i64 << 33) - 1),
+        ("driver_sequences@2^40", 1i64 << 40),
+    ] {
         let sc: Vec<Scenario> = seqs(&alpha, 3).into_iter().enumerate().map(|(i, cmds)| scn(format!("seq#{}", i), &spec, cmds)).collect();
         fams.push(Family::new(name, TAGS_TIME, sc).epoch(secs));
     }
-    for (name, secs) in [("deadline_boundaries@-1s", -1i64), ("deadline_boundaries@-7s", -7)] {
+    for (name, secs) in [("deadline_boundaries@-1s", -1i64), ("deadline_boundaries@-7s", -7), ("deadline_boundaries@2^31", (1i64 << 31) - 1), ("deadline_boundaries@2^33", (1i64 << 33) - 1)] {
         let mut h = family_named(c08(tier), "request_validation");
         h.name = name;
         h.tags = TAGS_TIME;
@@ -1381,10 +1389,17 @@ pub fn c10(tier: &str) -> Vec<Family> {
         let thin: Vec<Scenario> = base.scenarios.iter().enumerate().filter(|(i, _)| tier != "quick" || i % 4 == 0).map(|(_, s)| s.clone()).collect();
         let mut e1 = Family::new("periodic_partitions@-1s", base.tags, thin.clone()).cap(cap).epoch(-1);
         e1.dev_bound = base.dev_bound;
-        let mut e2 = Family::new("periodic_partitions@-7s", base.tags, thin).cap(cap).epoch(-7);
+        let mut e2 = Family::new("periodic_partitions@-7s", base.tags, thin.clone()).cap(cap).epoch(-7);
         e2.dev_bound = base.dev_bound;
+        let (tags, db) = (e1.tags, e1.dev_bound);
         out.push(e1);
         out.push(e2);
+        for (name, secs) in [("periodic_partitions@2^31", (1i64 << 31) - 1), ("periodic_partitions@2^33", (1i64 << 33) - 1)] {
+            let thin2: Vec<Scenario> = thin.iter().enumerate().filter(|(i, _)| i % 3 == 0).map(|(_, s)| s.clone()).collect();
+            let mut e = Family::new(name, tags, thin2).cap(cap).epoch(secs);
+            e.dev_bound = db;
+            out.push(e);
+        }
     }
     out
 }
